@@ -1732,6 +1732,7 @@ pub struct C12;
 impl Scenario for C12 {
     type Plan = Plan;
     const ID: &'static str = "C12";
+    const BARE_PASS: bool = true;
     const LEVEL: &'static str = "exploration";
 
     fn units(tier: Tier) -> u64 {
